@@ -2,8 +2,8 @@ package main
 
 import (
 	"bufio"
-	"context"
 	"bytes"
+	"context"
 	"encoding/json"
 	"flag"
 	"fmt"
